@@ -41,7 +41,7 @@ ASSUMPTIONS = ['indexing, slicing and iteration in MSB0 mode only (the LSB0 inde
                'a zero slice step must raise ValueError as it does for every built-in sequence']
 
 PROMOTABLE = ['str', 'hexstr', 'bytes', 'bytearray', 'memoryview', 'list', 'tuple', 'gen', 'truthy', 'truthy-iter', 'bitarray', 'array', 'BytesIO', 'BytesIO-used', 'BytesIO-written'] + util.SUBCLASS_KINDS
-BYTE_KINDS = ('bytes', 'bytearray', 'memoryview', 'array', 'BytesIO', 'BytesIO-used', 'BytesIO-written', 'bytes-sub', 'bytearray-sub', 'memoryview-ro')
+BYTE_KINDS = ('bytes', 'bytearray', 'memoryview', 'array', 'BytesIO', 'BytesIO-used', 'BytesIO-written', 'bytes-sub', 'bytearray-sub', 'memoryview-ro', 'memoryview-strided', 'memoryview-reversed')
 MUL_NS = [-2, -1, 0, 1, 2, 3, 4, 5, 7, 8, 9, 15, 16, 17, 31, 32, 33, 64, 65, 100, 1000]
 HUGE = [10 ** 6, -10 ** 6, 2 ** 63, -2 ** 63 - 1, 10 ** 30, -10 ** 30]
 PRODUCT_LENGTHS = [x for x in util.LENGTHS if x <= 33]
